@@ -182,12 +182,12 @@ def run_buck4(case, ctx):
     base = vals["potentialforms.buck4"]
     ctx.count("equivalence_points")
     for name, v in vals.items():
-      if abs(v - base) > 1e-12 * max(abs(base), float(mag) * 1e-3, 1e-300):
+      if not (abs(v - base) <= 1e-12 * max(abs(base), float(mag) * 1e-3, 1e-300)):
         ctx.violation("constructions_disagree", "buck4 %s at r=%r: %r" % (case["p"], r, vals), what="constructions_disagree")
         return
       for k in (0, 1):
         b = ders["potentialforms.buck4"][k]
-        if abs(ders[name][k] - b) > 1e-10 * max(abs(b), float(mag) * 1e-3 * 16 ** (k + 1), 1e-300):
+        if not (abs(ders[name][k] - b) <= 1e-10 * max(abs(b), float(mag) * 1e-3 * 16 ** (k + 1), 1e-300)):
           ctx.violation("constructions_disagree", "buck4 %s derivative order %d at r=%r: %r" % (case["p"], k + 1, r, ders), what="constructions_disagree")
           return
     ok, diff, tol = R.close(base, ref, sc=abs(ref), mag=mag)
@@ -292,7 +292,7 @@ def run_case(case, ctx):
           ctx.violation("interior_value", "%s at r=%r: %r, advertised shape with reference coefficients gives %s (|diff|=%.3g tol=%.3g cond=%.2g)" % (
             nm, r, v, mp.nstr(ref, 15), diff, tol, float(cond)), what="interior_value")
           return
-      if abs(v_api - v_pot) > 1e-12 * max(abs(v_api), float(mag) * 1e-3):
+      if not (abs(v_api - v_pot) <= 1e-12 * max(abs(v_api), float(mag) * 1e-3)):
         ctx.violation("constructions_disagree", "r=%r: classes %r vs spline() %r" % (r, v_api, v_pot), what="constructions_disagree")
         return
       if abs(ref - M.value(node["start"], rr)) > 1e-6 * abs(ref) and abs(ref - M.value(node["end"], rr)) > 1e-6 * abs(ref):
@@ -375,10 +375,10 @@ def run_case(case, ctx):
     cm = float(max(abs(c) for c in co_ref)) * sum(rm ** i for i in range(6)) * amp
     for order, a, b in ((0, s5(rm), s3(rm)), (1, s5.deriv(rm), s3.deriv(rm)), (2, s5.deriv2(rm), s3.deriv2(rm))):
       ctx.count("continuity_checks")
-      if abs(a - b) > 1e-10 * cm * 30 ** order:
+      if not (abs(a - b) <= 1e-10 * cm * 30 ** order):
         ctx.violation("c2_continuity", "order-%d derivative jumps across r_min=%r: %r vs %r" % (order, rm, a, b), what="c2_continuity", at="r_min")
         return
-    if abs(s5.deriv(rm)) > 1e-10 * cm * 30:
+    if not (abs(s5.deriv(rm)) <= 1e-10 * cm * 30):
       ctx.violation("rmin_slope", "slope at r_min=%r is %r, not 0" % (rm, s5.deriv(rm)), what="rmin_slope")
     # region: r < r_min -> quintic, r >= r_min -> cubic (published shape)
     for r in (math.nextafter(rm, 0), rm, math.nextafter(rm, 99)):
@@ -390,7 +390,7 @@ def run_case(case, ctx):
     d4 = sum(((-1) ** k) * math.comb(4, k) * inter(rm + h * (1 + k)) for k in range(5))
     h5 = (rm - rd) / 8
     d6 = sum(((-1) ** k) * math.comb(6, k) * inter(rd + h5 * (0.5 + k)) for k in range(7))
-    if abs(d4) > 1e-9 * cm or abs(d6) > 1e-8 * cm:
+    if not (abs(d4) <= 1e-9 * cm and abs(d6) <= 1e-8 * cm):
       ctx.violation("degree", "finite differences d4=%r (cubic side) d6=%r (quintic side) do not vanish (scale %r)" % (d4, d6, cm), what="degree")
   else:
     # advertised shape: (value - C) is positive and log(value - C) is a quintic: 6th finite difference vanishes
@@ -404,7 +404,7 @@ def run_case(case, ctx):
         d6 = sum(((-1) ** k) * math.comb(6, k) * logs[k] for k in range(7))
         sc = max(abs(x) for x in logs) + 1
         ctx.count("shape_checks")
-        if abs(d6) > 1e-7 * sc * amp:
+        if not (abs(d6) <= 1e-7 * sc * amp):
           ctx.violation("degree", "log(value - C) is not a fifth-order polynomial (6th difference %r)" % d6, what="degree")
       except ValueError:
         ctx.violation("degree", "value - C is not positive inside the splined region", what="degree")
